@@ -300,6 +300,13 @@ def check(case, stats=None):
                 want = [sum(dense[n][s + j] for n, s in wins) / len(wins) for j in range(w)]
                 if not close(got, want):
                     return [Failure("C11:window-mean", {"streamed": np.asarray(got).tolist(), "expected": want, "windows": wins})]
+                # one sum per window (along the rows): the sums of all windows in order, not the sums of the chromosomes added together
+                for how, mk in (("np.sum", lambda x: np.sum(x, axis=-1)), (".sum", lambda x: x.sum(axis=-1))):
+                    gw2 = genome.get_intervals(NpDataclassStream(iter([wt]), dataclass=Interval))
+                    got_s = np.asarray(bnp.compute(mk(genome.get_intervals(stream()).get_pileup()[gw2]))).tolist()
+                    want_s = [sum(dense[n][s + j] for j in range(w)) for n, s in wins]
+                    if got_s != want_s:
+                        return [Failure("C11:window-sums", {"how": how, "streamed": got_s, "expected": want_s, "windows": wins})]
                 if case.get("ragged_windows") and len(names) >= 2:
                     # windows whose length differs from chromosome to chromosome (w on the first, w+1 on the second, ...): the column mean through the
                     # streamed pipeline is the in-memory one, or the streamed evaluation refuses (it does, today, when the longest lengths differ)
